@@ -1,26 +1,12 @@
-"""Per-property configuration: Lean modules, audit file, harness runs, oracles, assumptions."""
+"""Property table: the union of vlib/props_<family>.py (each defines PROPS)."""
+import glob
+import importlib
+import os
 
-HTTP_RUN = {"harness": "hhttp", "driver": "httpdrv", "fields": ["cache", "err"], "corpus": "http",
-            "quick": {"n": 1500, "shards": 16}, "thorough": {"n": 40000, "shards": 32}}
-
-PROPS = {
-    "C06": {
-        "lean": ["NbioVerif.Properties.C06"], "drivers": ["httpdrv"], "harness": ["hhttp"],
-        "runs": [HTTP_RUN],
-        "oracles": ["c06-"],
-        "rule": "case = (message sequence incl. mutated neighbours, segmentation); distinct by hash of (config class, parser-state "
-                "transition per Parse call, error kind); non-trivial iff some cut left bytes in the parser cache or an error was returned",
-        "assumptions": ["ReadLimit not hit (hypothesis of the theorem: the entry test is segmentation dependent by construction); "
-                        "limit cases are still compared between model and implementation",
-                        "url.ParseRequestURI / http.ParseHTTPVersion verdicts are inputs of the model (recorded from the real processors)"],
-    },
-    "C08": {
-        "lean": ["NbioVerif.Properties.C08"], "drivers": ["httpdrv"], "harness": ["hhttp"],
-        "runs": [HTTP_RUN],
-        "oracles": ["c08-"],
-        "rule": "same stream as C06 (random bytes, grammar messages and six+ mutation operators, limits drawn around the sizes); "
-                "non-trivial iff bytes were retained across calls or an error was returned",
-        "assumptions": ["a recovered panic is observed through the parser's own log line",
-                        "'nothing after an error' is checked for the engine glue modelled as CloseAndClean on error"],
-    },
-}
+PROPS = {}
+for _f in sorted(glob.glob(os.path.join(os.path.dirname(__file__), "props_*.py"))):
+    _m = importlib.import_module("vlib." + os.path.basename(_f)[:-3])
+    for _k, _v in _m.PROPS.items():
+        if _k in PROPS:
+            raise RuntimeError("property %s defined twice" % _k)
+        PROPS[_k] = _v
